@@ -120,6 +120,38 @@ def renderers(R, ctx):
         loops = [l for l in P.loops_of(b) if any(re.search(r'Iterator>::next$', c) for c in l['callees'])]
         wr = any(any(re.search(r'write_fmt$|write_all$|write_str$', c) for c in l['callees']) for l in loops)
         R.check('R17.1', f"{b.path}|all-named-entries", bool(loops) and wr, "loop over the filters writing each named entry", f"{b.path} does not write every named entry", where=b.loc())
+        # ... decided on the decision rows: whatever else a row examines (e.g. the entry's level), an entry WITH a name is followed by a write
+        # before the next entry is fetched, unless a write failed.  (A nested filter `foo::bar = info` under `foo = trace` is not
+        # redundant although its level equals the default: dropping it changes the decisions of the re-parsed specification.)
+        import c04 as _c04
+        WR = r'write_fmt$|write_all$|write_str$'
+        NEXT = r'Iterator>::next$'
+        try:
+            rows, _I = _c04.rows_of(ctx, b.path, [WR, NEXT], k=2)
+        except Exception as e:
+            raise CheckError(f"R17.1 {b.path}: {type(e).__name__} {e}")
+        bad, nn = None, 0
+        for r in rows:
+            if r.undecided:
+                raise CheckError(f"R17.1 {b.path}: UNDECIDED {r.undecided}")
+            if isinstance(r.result, Agg) and r.result.variant == 'Err':
+                continue
+            nexts = [i for i, e in enumerate(r.effects) if re.search(NEXT, e[0])]
+            for j, ei in enumerate(nexts):
+                tok = f"next#{ei + 1}"
+                named = [v for a, v in r.cond if a.startswith('variant(') and re.search(re.escape(tok) + r'(\.0)?\.\w+\)$', a)]
+                if named != ['Some']:
+                    continue
+                seg = r.effects[ei + 1:(nexts[j + 1] if j + 1 < len(nexts) else len(r.effects))]
+                nn += 1
+                if not any(re.search(WR, e[0]) for e in seg):
+                    others = [f"{a}={v}" for a, v in r.cond if tok in a and not a.startswith('variant(')][:3]
+                    bad = f"an entry with a module name is skipped (nothing is written for it) when {others or 'some condition holds'}"
+        if nn < 2:
+            raise CheckError(f"R17.1 {b.path}: named entries not recognised on the rows ({nn})")
+        R.check('R17.1', f"{b.path}|every-named-entry-on-every-path", not bad, f"{nn} named entries on the rows, each written",
+                f"{b.path}: {bad}: the text form no longer describes the specification (re-parsing it gives different decisions, e.g. for a nested module whose level equals the default)",
+                where=b.loc())
     # delimiters of the Display form
     consts = body_byte_consts(disp)
     lit = ''.join(''.join(printable_runs(c)) for c in consts)
